@@ -4,18 +4,21 @@ LEVEL = 'proof'
 Q = 'soupsieve.css_match.Inputs.'
 FUNCTIONS = [Q + n for n in ('validate_day', 'validate_week', 'validate_month', 'validate_year', 'validate_hour',
                              'validate_minutes', 'parse_value')]
-TRUSTED = ['A-py (E1-E6: Python semantics assumed by the encoding; int arithmetic is mathematical, exact for Python)',
+TRUSTED = ['tree-shape precondition (assumed, from the property\'s quantifier): type/min/max/value attributes are strings when present', 'normalize_value under an assumed contract', 'A-py (E1-E6: Python semantics assumed by the encoding; int arithmetic is mathematical, exact for Python)',
            'A-re (CPython re accepts exactly the translated language of RE_DATE/RE_MONTH/RE_WEEK/RE_TIME/RE_DATETIME/RE_NUM)',
            'float() of a numeric string treated as a mathematical real (E6)',
            'A-smt (z3 5.1 / cvc5 1.0.3 answer unsat only when true)']
 ASSUMPTIONS = TRUSTED
 EXPLANATION = ('Each validator and Inputs.parse_value is symbolically executed from its source in /repo and its postcondition '
                '(result == the HTML-standard value function html_value, spec/calendar.py) is discharged for all integers and all strings.')
-TIMEOUT_MS = {'quick': 20000, 'thorough': 120000}
+TIMEOUT_MS = {'quick': 60000, 'thorough': 240000}
 SHARDS = {'parse_value': 8}
 LEVEL_TEXT = ('Proof, for all integers and all strings, that the field validators and Inputs.parse_value compute the HTML-standard '
               'value function (Gregorian days per month, ISO-8601 week counts, hour/minute ranges, exact string shapes); '
-              'the comparison logic of match_range is covered under C17/C08 once the tree vocabulary is in place. '
+              'match_range is proved equal to the HTML range semantics (lexicographic = calendar/numeric order, wrapped time ranges, invalid or missing value never out of range). '
               'Outside the two listed known findings.')
 from props._common import hub_bounded  # noqa: E402
 BOUNDED = [hub_bounded('C18-ranges-hub', ['ranges', 'forms'], ['html'])]
+
+FUNCTIONS = FUNCTIONS + ['soupsieve.css_match.CSSMatch.match_range', 'soupsieve.css_match._DocumentNav.get_attribute_by_name']
+SHARDS = {'match_range': 8, 'parse_value': 8, 'match_selectors': 16, 'match_nth': 4}
